@@ -1,3 +1,4 @@
+import BycycleModel.Routing
 import Proofs.Group
 /-!
 # C12 — 3-D group results sit at the position of their signal
@@ -44,5 +45,9 @@ theorem C12_index_counterexample : (fun (n1 i j : Nat) => i + j) 2 1 0 ≠ (fun 
 example : Rect 2 3 [[0, 1, 2], [3, 4, 5]] := ⟨rfl, by intro row h; simp at h; rcases h with h | h <;> simp [h]⟩
 example : features3d (fun (s o : Nat) => (s, o)) (fun xs o => xs.map fun s => (s, o)) id 0 [] 2 3 [[0, 1, 2], [3, 4, 5]]
     (.many [10, 11, 12, 13, 14, 15]) .a01 = [[(0, 10), (1, 11), (2, 12)], [(3, 13), (4, 14), (5, 15)]] := by decide
+
+/-- the group object's wiring as far as this property reads it (`Routing.groupObject`, extracted from the source on every run): the stored array, rate, band,
+axis, sample switch, number of jobs and ONE option dictionary built from the stored settings reach the group analysis; every model is built with the group's settings. -/
+theorem C12_group_routing : ∀ r ∈ Routing.groupObject, r.2.1 != "compute_features_2d" → Routing.holdsAll Slots.routes r = true := by decide +kernel
 
 end Bycycle
